@@ -220,7 +220,7 @@ func c04Framing(p *load.Program, r *oblig.Report) {
 				bad = append(bad, "the unread rest of the frame is not discarded after decoding: "+j)
 			}
 		}
-		r.Check(len(bad) == 0 && nDecode >= 2, rule, "protocol."+name+" → frame size bounds the decoder and exactly one frame is consumed", p.Pos(fn.Pos()),
+		r.Check(len(bad) == 0 && nDecode >= 1, rule, "protocol."+name+" → frame size bounds the decoder and exactly one frame is consumed", p.Pos(fn.Pos()),
 			"remain=4; readInt32; remain=size; …; decode; discardAll on every decoding path", strings.Join(bad, " || "), fmt.Sprintf("%d decoding paths", nDecode))
 	}
 	c04VersionGate(p, r)
@@ -257,6 +257,13 @@ func c04VersionGate(p *load.Program, r *oblig.Report) {
 				lt = true
 			}
 			if bo.Op == token.LSS && strings.Contains(x, "maxVersion") && isVer(y) {
+				gt = true
+			}
+			// the complement, tested on the other edge: !(minVersion <= apiVersion && apiVersion <= maxVersion)
+			if (bo.Op == token.LEQ && strings.Contains(x, "minVersion") && isVer(y)) || (bo.Op == token.GEQ && isVer(x) && strings.Contains(y, "minVersion")) {
+				lt = true
+			}
+			if (bo.Op == token.LEQ && isVer(x) && strings.Contains(y, "maxVersion")) || (bo.Op == token.GEQ && strings.Contains(x, "maxVersion") && isVer(y)) {
 				gt = true
 			}
 		})
@@ -461,6 +468,11 @@ func lenDesc(v ssa.Value) string {
 			if c, ok := an.ConstInt(y.Y); ok && y.Op == token.ADD {
 				plus += c
 				x = y.X
+				continue
+			}
+			if c, ok := an.ConstInt(y.X); ok && y.Op == token.ADD {
+				plus += c
+				x = y.Y
 				continue
 			}
 		case *ssa.Call:
